@@ -767,7 +767,8 @@ fn main() {
         ctx.cov("evaluations", total_images);
         ctx.cov("states_enumerated", total_states);
         ctx.cov("generator_cardinality", json!({"histories (sequence of distinct snapshots, last persist analysed)": histories.len(), "states (prefixes + power-loss variants)": total_states, "distinct directory images restored (incl. one clean restart per history)": total_images}));
-        ctx.cov("exhaustive", true);
+        // quick cuts an unsynced tail at three lengths only; thorough at every length
+        ctx.cov("exhaustive", ctx.tier == Tier::Thorough);
         ctx.cov("distinct_nontrivial", nontrivial);
         ctx.cov("rule", "a state is non-trivial if its directory image differs both from the directory before the persist and from the directory after the complete persist (i.e. it is a genuinely intermediate or partially durable state); distinct = distinct directory images per history");
         ctx.cov("ground_truth", source);
